@@ -244,6 +244,8 @@ class Ref:
         self.body_specs = {}
         self.tokn = {}
         self.cur_async = False
+        self.fuel = 0
+        self.constructing = set()
 
     # ---- plumbing ----------------------------------------------------------
     def ev(self, e):
@@ -264,10 +266,14 @@ class Ref:
 
     def run_script(self, key, env):
         for op in self.scripts.get(key, []):
+            if key[0] == "body":
+                if self.fuel <= 0:
+                    return
+                self.fuel -= 1
             try:
                 self.do(op, env)
             except Outcome:
-                pass  # scripts swallow what their calls raise (rendered the same way)
+                pass  # scripts swallow what their calls raise (the hooks do the same; bodies here raise Exceptions)
 
     # ---- violations -------------------------------------------------------------
     def violation(self, role, d, env):
@@ -473,15 +479,23 @@ class Ref:
             k = op["k"]
             prev = self.inst.get(k)
             self.inst[k] = ci
+            if prev is None:
+                self.constructing.add(k)  # the variable is bound only once the constructor has returned
             try:
-                return self.construct(ci, k, op)
+                r = self.construct(ci, k, op)
+                self.constructing.discard(k)
+                return r
             except Outcome:
+                self.constructing.discard(k)
                 # `o = K()` raising leaves the variable bound to what it was before
                 if prev is None:
                     self.inst.pop(k, None)
                 else:
                     self.inst[k] = prev
                 raise
+        if t != "new" and "k" in op and not op.get("_self") and (
+                op["k"] not in self.inst or op["k"] in self.constructing):
+            raise Outcome(("noinst",))  # only reachable from scripts, which swallow it (the hook gets a KeyError)
         if t in ("call", "get", "set", "del"):
             k = op["k"]
             ci = self.inst[k]
@@ -621,7 +635,7 @@ class Ref:
                 self.ev(("body", self.qual(py["owner"], py["func"]), {"self": "self"}))
             self.body(qual, f, benv)
             for s in f.get("ctor_calls", []):
-                self._do({"op": "call", "k": k, "m": s, "args": {"x": "NoneType"}})
+                self._do({"op": "call", "k": k, "m": s, "args": {"x": "NoneType"}, "_self": True})
             if sup == "last":
                 self.super_init(owner, k)
             return "NoneType"
@@ -666,7 +680,8 @@ class MissingArg(Exception):
 def run_ops(model, ops, truth, **kw):
     """Execute ops; return (log, outcomes, ref) with outcomes[i] = ('ret', x) | ('exc', what)."""
     r = Ref(model, truth, **{k: v for k, v in kw.items() if k in ("hold_marker_during_body", "event_budget")})
-    r.scripts = kw.get("scripts") or {}
+    r.scripts = {tuple(k) if not isinstance(k, tuple) else k: v for k, v in (kw.get("scripts") or {}).items()}
+    r.fuel = kw.get("fuel", 0)
     r.body_specs = kw.get("body_specs") or {}
     outs = []
     for op in ops:
